@@ -899,9 +899,51 @@ func hugeUnderProcs(t *testing.T) {
 	}
 }
 
+// byteStructured: bitmaps whose non-zero bytes are the lead / continuation bytes of multi-byte UTF-8 sequences (and other
+// byte values a byte-oriented helper treats specially: 0x80, 0xbf, 0xc0, 0xc2, 0xdf, 0xe0, 0xef, 0xf0, 0xf4, 0xf5, 0xff),
+// placed so that a sequence straddles a word boundary or ends exactly at one; every scan direction, whole range and
+// ranges that start / end inside the sequence. (A scan rewritten over a byte view with a rune-decoding helper is met here.)
+func byteStructured(t *testing.T) {
+	leads := []uint64{0xc2, 0xdf, 0xe0, 0xef, 0xf0, 0xf4, 0xc0, 0xf5, 0xff, 0x80}
+	conts := []uint64{0x80, 0xbf, 0xa0, 0x90}
+	n := 0
+	for _, ld := range leads {
+		for _, ct := range conts {
+			for _, pad := range []int{0, 1, 3} { // zero words after the sequence
+				for shape := 0; shape < 4; shape++ {
+					var w []uint64
+					switch shape {
+					case 0: // lead in the top byte of word 0, continuation in the low byte of word 1
+						w = []uint64{ld << 56, ct}
+					case 1: // 3-byte sequence: lead and one continuation at the top of word 0, the last one in word 1
+						w = []uint64{ld<<48 | ct<<56, ct}
+					case 2: // the whole sequence inside word 1, ending at its top
+						w = []uint64{0, ld<<48 | ct<<56}
+					default: // 4 bytes across the boundary, two and two
+						w = []uint64{ld<<48 | ct<<56, ct | ct<<8}
+					}
+					w = append(w, make([]uint64, pad)...)
+					nb := int32(64 * len(w))
+					rs := [][2]int32{{0, nb}, {0, nb - 1}, {1, nb}, {56, 72}, {57, nb}, {63, 65}, {64, nb}, {48, 64}, {0, 64}, {60, 128}}
+					var ok [][2]int32
+					for _, r := range rs {
+						if r[0] >= 0 && r[0] <= r[1] && r[1] <= nb && r[0] < nb {
+							ok = append(ok, r)
+						}
+					}
+					checker.Run(t, Case{Words: w, Style: "grid-byte-structured", Ranges: ok})
+					n++
+				}
+			}
+		}
+	}
+	vk.Label("grid-byte-structured-bitmaps", int64(n))
+}
+
 func TestGrid(t *testing.T) {
 	vk.SetPhase("grid")
 	oracleSelfTest(t)
+	byteStructured(t)
 	pal := []uint64{0, 1, 1 << 31, 1 << 63, 1 | 1<<63, ^uint64(0)}
 	var evals, nontriv int64
 	for a := range pal {
